@@ -4,7 +4,7 @@
    on ids that are not in the table. *)
 From Coq Require Import NArith List Bool.
 Import ListNotations.
-From EIO Require Import Server ServerInv ServerProofs.
+From EIO Require Import Server ServerInv ServerProofs ServerReasons ServerResp ServerOnce.
 Open Scope N_scope.
 
 Theorem c15_refused_answered_once : forall cfg me r q s x,
@@ -24,7 +24,29 @@ Proof. exact api_keyerror_on_absent. Qed.
 Theorem c15_send_on_absent_returns : forall cfg i m s, nmem i (table s) = false -> srv_send cfg i m s = (tt, s, []).
 Proof. exact send_to_absent_is_noop. Qed.
 
+(* responses are never misdirected (every step of every task, every request on arrival, every application call, from any state):
+   what runs on behalf of request r - the request itself, its long poll, its WebSocket handler - answers only r; what runs on
+   behalf of no request (writers, heartbeats, the monitor, message handlers, closers, application calls) answers nothing *)
+Theorem c15_request_answers_only_itself : forall cfg me r q s,
+  Forall (ronly (Some r)) (ServerReasons.outof (handle_request cfg me r q s)).
+Proof. exact request_answers_only_itself. Qed.
+Theorem c15_task_answers_only_its_request : forall cfg me e s,
+  Forall (ronly (rid_of (t_task e))) (ServerReasons.outof (run_task cfg me e s)).
+Proof. exact task_answers_only_its_request. Qed.
+Theorem c15_api_answers_no_request : forall cfg me a x s, Forall (ronly None) (ServerReasons.outof (run_api cfg me a x s)).
+Proof. exact api_answers_no_request. Qed.
+
+(* exactly-one response, the safety half: for every history whose request ids are pairwise distinct (the gateway hands every request
+   its own) and every schedule - cancellations and time-outs included - no request is answered twice *)
+Theorem c15_answered_at_most_once : forall cfg ops, NoDup (rids ops) ->
+  forall r, (nr r (snd (run_sched cfg ops (init cfg) [])) <= 1)%nat.
+Proof. exact answered_at_most_once. Qed.
+
 Print Assumptions c15_refused_answered_once.
 Print Assumptions c15_refusal_status_set.
 Print Assumptions c15_api_on_absent_returns.
 Print Assumptions c15_send_on_absent_returns.
+Print Assumptions c15_request_answers_only_itself.
+Print Assumptions c15_task_answers_only_its_request.
+Print Assumptions c15_api_answers_no_request.
+Print Assumptions c15_answered_at_most_once.
